@@ -320,7 +320,7 @@ func init() {
 		Families: func(tier string) []Family {
 			return mkFamilies(famOpt{announced: true, chains: bothChain, roles: makers, backends: []bool{false},
 				flags:  scn.Flags{Blocks: true, Time: true, Restart: true, Drop: true, Inject: true, MaxTime: 2, MaxBlocks: 2, NoWinJump: true},
-				bounds: pick(tier, mc.Bounds{MaxDepth: 5, MaxDev: 2, Budget: 80 * time.Second, CrashAfterStore: true}, mc.Bounds{MaxDepth: 7, MaxDev: 3, Budget: 10 * time.Minute}),
+				bounds: pick(tier, mc.Bounds{MaxDepth: 5, MaxDev: 2, Budget: 80 * time.Second, CrashAfterStore: true, NoCrashFirst: true}, mc.Bounds{MaxDepth: 7, MaxDev: 3, Budget: 10 * time.Minute}),
 				tweak: func(f *Family) {
 					f.Cfg.Setup = c26Setup
 					f.Cfg.NodeCfg = c26NodeCfg
